@@ -241,17 +241,18 @@ class Exec:
         self.ref = {"key": self.root.key, "id": 0, "prio": 1.0, "spec": {"kind": "map"}, "kids": [],
                     "value": None, "default": ["none"]}
         self.set_hist = {}
-        self.stats = {"set_ok": 0, "set_rej": 0, "add_ok": 0, "add_rej": 0, "rm_ok": 0, "depth": 1, "ties": 0}
+        self.outside = False
+        self.stats = {"readd_ref": 0, "readd_acc": 0, "set_ok": 0, "set_rej": 0, "add_ok": 0, "add_rej": 0, "rm_ok": 0, "depth": 1, "ties": 0}
         self._note_new()
 
     # ---- walking the real tree
-    def walk(self, m=None, depth=1):
+    def walk(self, m=None, depth=1, _path=()):
         P = mods()["P"]
         m = self.root if m is None else m
         yield m, depth
-        if isinstance(m, P.InputParameterMap):
+        if isinstance(m, P.InputParameterMap) and id(m) not in _path and depth < 40:     # (an accepted re-add can close a cycle)
             for k, c in list(m.value.items()):
-                yield from self.walk(c, depth + 1)
+                yield from self.walk(c, depth + 1, _path + (id(m),))
 
     def resolve(self, path):
         """oracle's own lookup: split on '.', walk the dicts"""
@@ -270,10 +271,14 @@ class Exec:
             if id(p) not in self.ids:
                 self.ids[id(p)] = new_id if new_id is not None else -1
                 self.keep.append(p)
+            try:
+                ek = p.extended_key()
+            except Exception as exc:      # noqa: BLE001 - e.g. a parent cycle: an observable, and never what the model says
+                ek = f"<extended_key() raises {type(exc).__name__}>"
             if isinstance(p, P.InputParameterMap):
-                out.append([p.extended_key(), self.ids[id(p)], None, canon(p.default_value)])
+                out.append([ek, self.ids[id(p)], None, canon(p.default_value)])
             else:
-                out.append([p.extended_key(), self.ids[id(p)], canon(p.value), canon(p.default_value)])
+                out.append([ek, self.ids[id(p)], canon(p.value), canon(p.default_value)])
         return out
 
     def _note_new(self):
@@ -422,6 +427,13 @@ class Exec:
             return ["decl", decl_of(self.root.get(op[1]))]
         if t == "remove":
             return ["param", self.root.remove(op[1])]
+        if t == "readd":                      # an EXISTING object is offered to a map
+            p = self.root.get(op[1])
+            if op[2] is None:
+                self.model.add_parameter(p)
+            else:
+                self.root.get(op[2]).add(p)
+            return ["outside"]                # accepted: one object in two maps, outside the tree model
         if t == "addc":
             parent = self.root if op[1] is None else self.root.get(op[1])
             p = self.construct(op[2], parent)
@@ -460,6 +472,14 @@ class Exec:
         if out[0] == "param":
             ret_obj = out[1]
             out = ["param", self.ids.get(id(ret_obj), -1)]
+        if out[0] == "outside":
+            # the sequence ends here (see gen_and_run / run_ops); the model only has to agree that the add is accepted
+            self.outside = True
+            self.stats["readd_acc"] += 1
+            self.nops += 1
+            return out, None
+        if t == "readd":
+            self.stats["readd_ref"] += 1
         new_id = self.nops + 1 if t in ("addc", "addm") else None
         now = self.dump(new_id)
         self.ref_update(op, out)
@@ -498,6 +518,12 @@ class Exec:
                 return ("rejected-child-stays-registered",
                         f"constructing {op[2]['kind']} parameter {op[2]['key']!r} with parent raised {exc_name} "
                         "but the parameter is registered in the parent map afterwards")
+            if t == "readd":
+                diff = next((i for i, (a, b) in enumerate(zip(now, self.prev)) if a != b), min(len(now), len(self.prev)))
+                return ("refused-add-changed-state",
+                        f"adding the existing parameter {op[1]!r} to {'the root map' if op[2] is None else 'map ' + repr(op[2])} was refused "
+                        f"({exc_name}) but the tree changed: entry {diff} was {self.prev[diff] if diff < len(self.prev) else None} and is now "
+                        f"{now[diff] if diff < len(now) else None} (extended key, identity, value, default)")
             return (f"rejected-attempt-changed-state:{t}", f"{op[:2]} raised {exc_name} but the parameter tree changed")
         for rn, p in self.ref_walk():
             if rn["spec"]["kind"] != "map" and not isinstance(p, P.InputParameterMap):
@@ -531,6 +557,10 @@ class Exec:
                 for k, c in kids:
                     if k != c.key:
                         return ("map-key-mismatch", f"map {p.extended_key()} lists {c.key!r} under {k!r}")
+                    if c.parent is not p:
+                        return ("parent-is-not-the-listing-map",
+                                f"{k!r} is listed in map {p.extended_key()} but its parent is "
+                                f"{c.parent.extended_key() if c.parent is not None else None} (after {op[:3] if t == 'readd' else op[:2]})")
                 order = [(c.display_priority, self.first.get(id(c), (0, 0, self.seq + 1))[2]) for _k, c in kids]
                 if order != sorted(order):
                     return ("children-order-wrong", f"children of {p.extended_key()} are not listed by priority then insertion: {[k for k, _ in kids]} {order}")
@@ -570,6 +600,8 @@ def run_ops(ops, oracle=True):
     for op in ops:
         out, d = ex.apply(op)
         obs.append((op, out, d))
+        if ex.outside:
+            break              # an accepted re-add: what follows is outside the tree model
     return ex, obs
 
 
@@ -785,17 +817,39 @@ def gen_and_run(rng, n_ops, malformed=False):
                 op = [t, rng.choice(maps), vany(rng)]
             else:
                 op = [t, bogus_path(rng, leafs, maps), vany(rng)]
-        elif r < 0.91:
+        elif r < 0.88:
             t = rng.choice(["get", "get", "get", "mget", "mget", "inspect", "inspect"])
             allp = leafs + maps
             op = [t, rng.choice(allp)] if allp and rng.random() > pbad else [t, bogus_path(rng, leafs, maps)]
-        else:
+        elif r < 0.95:
             allp = leafs + maps
             op = ["remove", rng.choice(allp)] if allp and rng.random() > pbad else ["remove", bogus_path(rng, leafs, maps)]
+        else:
+            # offer an existing object to a map; mostly to one that holds its key already (must be refused)
+            allp = leafs + maps
+            dsts = [None] + maps
+            dup = []
+            for sp in allp:
+                k = sp.rsplit(".", 1)[-1]
+                for dp in dsts:
+                    m = ex.root if dp is None else ex.resolve(dp)
+                    if isinstance(m, P.InputParameterMap) and k in m.value:
+                        dup.append((sp, dp))
+            u = rng.random()
+            if dup and u < 0.8:
+                sp, dp = rng.choice(dup)
+                op = ["readd", sp, dp]
+            elif allp and u < 0.9:
+                op = ["readd", rng.choice(allp), rng.choice(dsts + leafs)]          # may be accepted: ends the sequence
+            elif allp:
+                op = rng.choice([["readd", bogus_path(rng, leafs, maps), rng.choice(dsts)],
+                                 ["readd", rng.choice(allp), bogus_path(rng, leafs, maps)]])
+            else:
+                op = ["get", bogus_path(rng, leafs, maps)]
         out, d = ex.apply(op)
         obs.append((op, out, d))
-        if ex.bad is not None:
-            break              # a clause is violated already: the rest of the sequence adds nothing
+        if ex.bad is not None or ex.outside:
+            break              # a clause is violated already / an accepted re-add: the rest adds nothing
     return ex, obs
 
 
@@ -965,6 +1019,8 @@ class Emitter:
             return f"OModelGet {self.s(op[1])}"
         if t == "inspect":
             return f"OInspect {self.s(op[1])}"
+        if t == "readd":
+            return f"OReAdd {self.s(op[1])} {'None' if op[2] is None else '(Some ' + self.s(op[2]) + ')'}"
         if t == "remove":
             return f"ORemove {self.s(op[1])}"
         pp = "None" if op[1] is None else f"(Some {self.s(op[1])})"
@@ -975,6 +1031,8 @@ class Emitter:
             return f"ORaise {o[1] if o[1] in EXN else 'OtherError'}"
         if o[0] == "none":
             return "ONone"
+        if o[0] == "outside":
+            return "OOutside"
         if o[0] == "param":
             return f"OParam {o[1]}" if o[1] >= 0 else "OParam 999999"
         if o[0] == "value":
@@ -1032,12 +1090,14 @@ def emit_cases(path: Path, cases):
 # ------------------------------------------------------------------ main
 RULE = ("random operation sequences (10-28 ops; every 5th from a malformed-heavy stream) on a DSOLModel's parameter tree, "
         "all eight parameter classes, depth <= 3, values valid and invalid per class (wrong type, out of bounds, not an option, "
-        "wrong quantity class, bool for int, SI / Quantity for float, NaN, +-inf, -0.0, 10**400, read-only), paths existing and malformed; "
+        "wrong quantity class, bool for int, SI / Quantity for float, NaN, +-inf, -0.0, 10**400, read-only), paths existing and malformed, "
+        "existing objects offered to maps that hold their key (refused re-adds; an accepted re-add ends the sequence); "
         "non-trivial = distinct sequence with >= 1 accepted and >= 1 rejected set-value on an existing leaf, >= 3 successful adds "
         "and a tree of depth >= 3")
 HOW = ("harness/c18.py run_ops(ops): each op is applied to a fresh DSOLModel's input_parameters "
        "(set -> root.get(path).set_value(v); mset/mget -> model.set_parameter/get_parameter; "
-       "addc -> Class(..., parent=...); addm -> parent.add(Class(...)); get/remove -> root.get/remove(path)); "
+       "addc -> Class(..., parent=...); addm -> parent.add(Class(...)); get/remove -> root.get/remove(path); "
+       "readd src dst -> (root if dst is None else root.get(dst)).add(root.get(src))); "
        "the identity of a parameter is the number of the op that created it (root = 0)")
 
 
